@@ -1,7 +1,7 @@
 META = {
     "level": "model_checking",
-    "technique": "statement-grain PlusCal/TLA+ model of PosixPipe/OrPipe with BufferedPipe critical sections (OrPipe.tla) model-checked by TLC from every initial buffer state; real Channel after fileno() run under linesched with a switch point at every source line of pipe.py (exhaustive schedules, bounded preemptions); each schedule's log + select() observation validated by TLC (OrPipe_Trace.tla)",
-    "text": "TLC checks 'readable iff data or EOF at quiescent points' and 'no thread blocks in clear()' over all statement-level interleavings of transport feeds/EOF and two readers; the unlocked design (toggle) must produce the race. The real classes are then driven through all schedules with <= 2 preemptions of small programs (plus random schedules of larger ones) and TLC judges select() against the replayed buffer contents",
+    "technique": "statement-grain PlusCal/TLA+ model of PosixPipe/OrPipe with BufferedPipe critical sections (OrPipe.tla) model-checked by TLC from every initial buffer state; real Channel after fileno() run under linesched with a switch point at every source line of pipe.py (exhaustive schedules, bounded preemptions); each schedule's log + select() observation validated by TLC (OrPipe_Trace.tla); fileno() itself - several first callers at once, set_combine_stderr(True) afterwards - is a second statement-grain model (Fileno.tla) with its own schedules (line-level switch points in channel.py) and trace spec (Fileno_Trace.tla)",
+    "text": "TLC checks 'readable iff data or EOF at quiescent points' and 'no thread blocks in clear()' over all statement-level interleavings of transport feeds/EOF and two readers; the unlocked design (toggle) must produce the race; for fileno(): every descriptor handed to a caller is the channel's one pipe and tracks the data, also after stderr is combined into stdout (seeded errors: test-before-lock, empty() keeping the event, must be refuted). The real classes are then driven through all schedules with <= 2 preemptions of small programs (plus random schedules of larger ones) and TLC judges select() against the replayed buffer contents",
     "note": "trusted: TLC/pcal, linesched (one thread at a time; line-level switch points in pipe.py, sync-level elsewhere), select() on the real descriptor; quiescent = all threads finished",
 }
 import random
